@@ -130,24 +130,27 @@ def LP.parallelFitIn (s : LP α) (b : Batch α) (order : List α) : LP α :=
 
 def LP.parallelFit (s : LP α) (b : Batch α) : LP α := s.parallelFitIn b s.arms
 
+def LP.means (s : LP α) : List Rat := s.st.vals.map (·.mean)
+
 /-- `_Softmax._expectation_operation` -/
 def LP.expOp (s : LP α) : LP α :=
   match s.kind with
-  | .softmax tau =>
-    let ms := s.st.vals.map (·.mean)
-    { s with st := s.st.mapKV fun _ r => { r with exp := .soft ms tau r.mean } }
+  | .softmax tau => { s with st := s.st.mapKV fun _ r => { r with exp := .soft s.means tau r.mean } }
   | _ => s
+
+/-- the raw mean `_normalize_expectations` starts from -/
+def popMean (r : ArmSt α) : Rat := if r.cnt ≠ 0 then r.sum / r.cnt else 0
+
+def LP.popTotal (s : LP α) : Rat := (s.st.vals.map popMean).sum
 
 /-- `_Popularity._normalize_expectations` (means are recomputed from the sums and counts) -/
 def LP.normalize (s : LP α) : LP α :=
   match s.kind with
   | .popularity =>
-    let mean (r : ArmSt α) : Rat := if r.cnt ≠ 0 then r.sum / r.cnt else 0
-    let total := (s.st.vals.map mean).sum
-    if total = 0 then
+    if s.popTotal = 0 then
       { s with st := s.st.mapKV fun _ r => { r with exp := .val (1 / (s.arms.length : Rat)) } }
     else
-      { s with st := s.st.mapKV fun _ r => { r with exp := .val (mean r / total) } }
+      { s with st := s.st.mapKV fun _ r => { r with exp := .val (popMean r / s.popTotal) } }
   | _ => s
 
 def batchArms (b : Batch α) : List α := b.map (·.arm)
@@ -170,38 +173,49 @@ def resetRec (kind : Kind) (numFeatures : Option Nat) (k1fixed : Bool) (r : ArmS
 
 def batchWidth (b : Batch α) : Option Nat := (b.head?).map (·.ctx.length)
 
+/-- the three whole-policy passes that follow `_parallel_fit`: `_expectation_operation` (Softmax),
+    `_set_arms_as_trained`, `_normalize_expectations` (Popularity) -/
+def LP.post (s : LP α) (b : Batch α) (p : Bool) : LP α := ((s.expOp).setTrained b p).normalize
+
+/-- `num_features` after `fit` (`contexts.shape[1]` for linear policies) -/
+def LP.nfFor (s : LP α) (b : Batch α) (width : Option Nat) : Option Nat :=
+  if s.kind.isLinear then (match width with | some w => some w | none => batchWidth b) else s.numFeatures
+
+/-- the resets at the top of `fit` -/
+def LP.resetFor (s : LP α) (b : Batch α) (width : Option Nat) : LP α :=
+  { s with total := b.length, numFeatures := s.nfFor b width,
+           st := s.st.mapKV fun _ r => resetRec s.kind (s.nfFor b width) s.k1fixed r }
+
 def LP.fit (s : LP α) (b0 : Batch α) (width : Option Nat := none) : LP α :=
   match s.kind with
   | .random => s
-  | _ =>
-    let b := s.binarize b0
-    let nf := if s.kind.isLinear then (match width with | some w => some w | none => batchWidth b)
-              else s.numFeatures
-    let s1 : LP α := { s with total := b.length, numFeatures := nf,
-                              st := s.st.mapKV fun _ r => resetRec s.kind nf s.k1fixed r }
-    ((s1.parallelFit b).expOp.setTrained b false).normalize
+  | _ => ((s.resetFor (s.binarize b0) width).parallelFit (s.binarize b0)).post (s.binarize b0) false
+
+def LP.bumpTotal (s : LP α) (n : Nat) : LP α := { s with total := s.total + n }
 
 def LP.partialFit (s : LP α) (b0 : Batch α) : LP α :=
   match s.kind with
   | .random => s
-  | _ =>
-    let b := s.binarize b0
-    let s1 : LP α := { s with total := s.total + b.length }
-    ((s1.parallelFit b).expOp.setTrained b true).normalize
+  | _ => ((s.bumpTotal (s.binarize b0).length).parallelFit (s.binarize b0)).post (s.binarize b0) true
 
-/-- `BaseMAB.add_arm` + `_uptake_new_arm` (the caller has appended `a` to the shared arm list) -/
+/-- the dictionary writes of `BaseMAB.add_arm` + `_uptake_new_arm` (the caller has appended `a` to the
+    shared arm list); a Thompson policy takes over a new binarizer -/
+def LP.insertArm (s : LP α) (a : α) (binz : Option (α → Rat → Rat)) : LP α :=
+  { s with arms := s.arms ++ [a],
+           st := s.st.set a (freshRec s.kind s.numFeatures s.k1fixed),
+           binz := match s.kind, binz with
+                   | .thompson, some f => some f
+                   | _, _ => s.binz }
+
+/-- `BaseMAB.add_arm` + `_uptake_new_arm` -/
 def LP.addArm (s : LP α) (a : α) (binz : Option (α → Rat → Rat) := none) : LP α :=
-  let s1 : LP α := { s with arms := s.arms ++ [a],
-                            st := s.st.set a (freshRec s.kind s.numFeatures s.k1fixed),
-                            binz := match s.kind, binz with
-                                    | .thompson, some f => some f
-                                    | _, _ => s.binz }
-  s1.expOp
+  (s.insertArm a binz).expOp
+
+def LP.dropArm (s : LP α) (a : α) : LP α :=
+  { s with arms := s.arms.filter (· != a), st := s.st.pop a }
 
 /-- `BaseMAB.remove_arm` + `_drop_existing_arm` -/
-def LP.removeArm (s : LP α) (a : α) : LP α :=
-  let s1 : LP α := { s with arms := s.arms.filter (· != a), st := s.st.pop a }
-  s1.expOp.normalize
+def LP.removeArm (s : LP α) (a : α) : LP α := (s.dropArm a).expOp.normalize
 
 /-! ### warm start -/
 
